@@ -311,11 +311,16 @@ Fixpoint go (fuel : nat) (P : prog) (fx : bool) (t : task) (g : glob) : outcome 
         let continue (k : skind) (fs1 : fstate) (ip i : nat) (g : glob) : outcome * glob :=
           let g1 := if a0 then bump_after (sk_is_defer k) g else g in
           let '(ph, poll) := advance (fs_ph fs1) k in
-          let g2 := upd_run (fun r => set_sync SNone (set_intr (intr_of ph) r)) g1 in
-          if poll && async (rn g2) then
-            if fs_flags fs then go fuel' P fx (TDefers fs1 (fs_defers fs1) true false (Some PV_INTERRUPT)) (apply_async g2)
-            else (OPanic PV_INTERRUPT, apply_async (upd_run (set_intr (fs_sv_intr fs)) g2))
-          else go fuel' P fx (TLoop (fs_step fs1 ip i ph)) g2 in
+          if poll && async (rn g1) then
+            if fs_flags fs then
+              (* prologue: the defer statement returned nil, `defer rundefer(fun)` is executed, then `goto signal`.
+                 steady loop: the spinInterrupt slots that follow the defer statement see Async and panic BEFORE the
+                 installation loop runs: the deferred call is lost and Run.InstallDefer / Signals.Sync stay set *)
+              let fs2 := if intr_of (fs_ph fs) then fs else fs1 in
+              let g2 := if intr_of (fs_ph fs) then g1 else upd_run (set_sync SNone) g1 in
+              go fuel' P fx (TDefers fs2 (fs_defers fs2) true false (Some PV_INTERRUPT)) (apply_async g2)
+            else (OPanic PV_INTERRUPT, apply_async (upd_run (set_intr (fs_sv_intr fs)) g1))
+          else go fuel' P fx (TLoop (fs_step fs1 ip i ph)) (upd_run (fun r => set_sync SNone (set_intr (intr_of ph) r)) g1) in
         let ip := fs_ip fs in
         let i := fs_i fs in
         match nth_error c ip with
